@@ -118,17 +118,23 @@ func (c *sqlQueryChecker) funcIsExec(fn *types.Func) bool {
 }
 
 func (c *sqlQueryChecker) typeHasExecMethod(typ types.Type) bool {
+	return c.typeHasExecMethodRec(typ, map[*types.Named]bool{})
+}
+
+// typeHasExecMethodRec does the search; seen holds the named types that are
+// being examined, so that self-referential types (type DB struct{ *DB }) terminate.
+func (c *sqlQueryChecker) typeHasExecMethodRec(typ types.Type, seen map[*types.Named]bool) bool {
 	switch typ := typ.(type) {
 	case *types.Struct:
 		for i := 0; i < typ.NumFields(); i++ {
-			if c.typeHasExecMethod(typ.Field(i).Type()) {
+			if c.typeHasExecMethodRec(typ.Field(i).Type(), seen) {
 				return true
 			}
 		}
 	case *types.Alias:
 		switch typ := typ.Underlying().(type) {
 		case *types.Interface:
-			return c.typeHasExecMethod(typ)
+			return c.typeHasExecMethodRec(typ, seen)
 		default:
 			// TODO(cristaloleg): is there something else to handle?
 		}
@@ -139,8 +145,12 @@ func (c *sqlQueryChecker) typeHasExecMethod(typ types.Type) bool {
 			}
 		}
 	case *types.Pointer:
-		return c.typeHasExecMethod(typ.Elem())
+		return c.typeHasExecMethodRec(typ.Elem(), seen)
 	case *types.Named:
+		if seen[typ] {
+			return false
+		}
+		seen[typ] = true
 		for i := 0; i < typ.NumMethods(); i++ {
 			if c.funcIsExec(typ.Method(i)) {
 				return true
@@ -148,7 +158,7 @@ func (c *sqlQueryChecker) typeHasExecMethod(typ types.Type) bool {
 		}
 		switch ut := typ.Underlying().(type) {
 		case *types.Interface:
-			return c.typeHasExecMethod(ut)
+			return c.typeHasExecMethodRec(ut, seen)
 		case *types.Struct:
 			// Check embedded types.
 			for i := 0; i < ut.NumFields(); i++ {
@@ -156,7 +166,7 @@ func (c *sqlQueryChecker) typeHasExecMethod(typ types.Type) bool {
 				if !field.Embedded() {
 					continue
 				}
-				if c.typeHasExecMethod(field.Type()) {
+				if c.typeHasExecMethodRec(field.Type(), seen) {
 					return true
 				}
 			}
